@@ -19,7 +19,11 @@ pub enum Op {
     /// timestamp selector, timeout hint selector
     Publish(u8, u8),
     DeleteSub(u8),
+    /// clock step below a millisecond, in nanoseconds (may be negative): the server's clock is not a millisecond clock
+    TickFine(u8),
 }
+
+const STEPS_NS: [i64; 10] = [-999_999, -999_000, -400_000, -100, -1, 1, 100, 500_000, 999_999, 0];
 
 const STEPS_MS: [i64; 11] = [-86_400_000, -40_000, -1_000, -1, 0, 1, 100, 1_000, 31_000, 86_400_000, 250];
 const HINTS: [u32; 8] = [0, 1, 999, 1000, 29_999, 30_000, 30_001, u32::MAX];
@@ -30,7 +34,8 @@ fn op() -> impl Strategy<Value = Op> {
         2 => (0u8..3).prop_map(Op::CreateSub),
         3 => (0u8..3, 0u8..4, 0u8..4).prop_map(|(s, v, i)| Op::CreateItem(s, v, i)),
         4 => (0u8..4).prop_map(Op::Write),
-        10 => (0u8..STEPS_MS.len() as u8).prop_map(Op::Tick),
+        8 => (0u8..STEPS_MS.len() as u8).prop_map(Op::Tick),
+        4 => (0u8..STEPS_NS.len() as u8).prop_map(Op::TickFine),
         8 => (0u8..12, 0u8..HINTS.len() as u8).prop_map(|(t, h)| Op::Publish(t, h)),
         1 => (0u8..3).prop_map(Op::DeleteSub),
     ]
@@ -147,6 +152,19 @@ fn run(ctx: &Ctx, ops: &Vec<Op>) -> PResult {
                 let now = fx.now;
                 absorb(ctx, &mut queued, now, i, out)?;
             }
+            Op::TickFine(d) => {
+                let delta = STEPS_NS[*d as usize % STEPS_NS.len()];
+                if delta < 0 {
+                    went_back = true;
+                    ctx.class("clock_moves_backwards_by_less_than_a_millisecond");
+                }
+                let out = fx.tick_by(ctx, chrono::Duration::nanoseconds(delta))?;
+                if fx.now > high_water {
+                    high_water = fx.now;
+                }
+                let now = fx.now;
+                absorb(ctx, &mut queued, now, i, out)?;
+            }
             Op::Publish(t, h) => {
                 let ts = timestamp(*t, fx.now);
                 let hint = HINTS[*h as usize % HINTS.len()];
@@ -174,7 +192,7 @@ fn run(ctx: &Ctx, ops: &Vec<Op>) -> PResult {
 pub fn def() -> PropDef {
     PropDef {
         id: "C26",
-        rule: "histories of up to 52 operations on one session (create/delete subscription, monitored items with sampling interval -1 / 0 / 100 / 250 ms, writes, publish requests whose header timestamp is null, tick 0, 1, -1, i64::MAX, i64::MIN as decoded from the wire, end of times, now-40 s, now-1 ms, now, now+1 s, now+400 days and whose timeout hint is 0, 1, 999, 1000, 29999, 30000, 30001, u32::MAX; timer ticks whose clock moves by -1 day, -40 s, -1 s, -1 ms, 0, +1 ms, +100 ms, +250 ms, +1 s, +31 s, +1 day); oracle: no panic in tick, expire and enqueue; a BadTimeout fault for a queued publish request only when more than min(hint, 30 s) (30 s for hint 0) passed between its timestamp and the tick time; non-trivial = the clock moved backwards or a request timestamp lay in the future; distinct = distinct history",
+        rule: "histories of up to 52 operations on one session (clock steps of -1 day .. +1 day and of -999999 .. +999999 ns; create/delete subscription, monitored items with sampling interval -1 / 0 / 100 / 250 ms, writes, publish requests whose header timestamp is null, tick 0, 1, -1, i64::MAX, i64::MIN as decoded from the wire, end of times, now-40 s, now-1 ms, now, now+1 s, now+400 days and whose timeout hint is 0, 1, 999, 1000, 29999, 30000, 30001, u32::MAX; timer ticks whose clock moves by -1 day, -40 s, -1 s, -1 ms, 0, +1 ms, +100 ms, +250 ms, +1 s, +31 s, +1 day); oracle: no panic in tick, expire and enqueue; a BadTimeout fault for a queued publish request only when more than min(hint, 30 s) (30 s for hint 0) passed between its timestamp and the tick time; non-trivial = the clock moved backwards or a request timestamp lay in the future; distinct = distinct history",
         assumptions: &["the publish request timeout is the crate's constant of 30 s, shortened by a smaller non-zero timeout hint (what the code documents)", "only the 'not before' direction of the timeout is asserted"],
         abort_possible: false,
         parts: |tier| vec![part("clock_history", tier.pick(1500, 40000), history(), run)],
